@@ -1398,7 +1398,10 @@ func runCase(run *vh.Run, schema *sqlgen.Schema, idx int, c Case) *obs {
 				jsonBytes = true
 			}
 			if rv := reflect.ValueOf(val); rv.IsValid() && rv.Kind() == reflect.Ptr && !rv.IsNil() {
-				if k := rv.Elem().Kind(); col.Descriptor.Tags.Contains("json") && (k == reflect.Slice || k == reflect.Map) && rv.Elem().IsNil() {
+				// a non-nil pointer to a payload that json.Marshal renders as null (nil slice, map, interface or
+				// pointer) while the payload itself is NULL for Valuer: typed and untyped json columns alike
+				if k := rv.Elem().Kind(); col.Descriptor.Tags.Contains("json") &&
+					(k == reflect.Slice || k == reflect.Map || k == reflect.Interface || k == reflect.Ptr) && rv.Elem().IsNil() {
 					ptrNilJSON = true
 				}
 			}
